@@ -28,6 +28,9 @@
 
 #include "manager.h"
 #include "data/chunk.h"
+#include "data/chunk_handle.h"
+#include "data/chunk_list_node.h"
+#include "data/hash_chunk.h"
 #include "data/memory_chunk.h"
 #include "torrent/exceptions.h"
 #include "torrent/path.h"
@@ -107,7 +110,8 @@ static std::string op_chunk(Case& c, bool by_index, const std::vector<std::strin
     size_t fi = 0;
     for (auto itr = c.fl->begin(); itr != c.fl->end() && itr->get() != p.file(); ++itr) fi++;
     ps.push_back(std::to_string(p.position()) + ":" + std::to_string(p.size()) + ":" + std::to_string(fi) + ":" +
-                 std::to_string(p.file_offset()) + ":" + (p.file() && p.file()->is_padding() ? "p" : "f"));
+                 std::to_string(p.file_offset()) + ":" + (p.file() && p.file()->is_padding() ? "p" : "f") + ":" +
+                 std::to_string(p.chunk().page_align()));
   }
   std::string out = "parts=" + commas(ps);
 
@@ -267,6 +271,32 @@ static std::string run_case(std::vector<std::string> t, unsigned serial) {
           imgs.push_back(ok ? hex(b) : "!missing");
         }
         r = "dump=" + commas(imgs);
+      } else if (k == "H") {
+        uint32_t idx = (uint32_t)std::stoull(op.at(1));
+        std::vector<uint32_t> steps;
+        if (op.at(2) != "-") { std::istringstream ss(op.at(2)); std::string x; while (std::getline(ss, x, ',')) steps.push_back((uint32_t)std::stoull(x)); }
+        Chunk* raw = nullptr;
+        bool err = false;
+        try { raw = c.fl->create_hashing_chunk_index(idx, MemoryChunk::prot_read); } catch (torrent::internal_error&) { err = true; }
+        if (err) r = "ERR:internal";
+        else if (raw == nullptr) r = "NULL";
+        else {
+          std::unique_ptr<Chunk> ch(raw);
+          torrent::ChunkListNode node;
+          node.set_index(idx);
+          node.set_chunk(ch.get());
+          {
+            torrent::HashChunk hc(torrent::ChunkHandle(&node, false, false));
+            bool ok = true;
+            try {
+              for (uint32_t l : steps) hc.perform(l, true);
+              hc.perform(hc.remaining(), true);
+            } catch (torrent::internal_error&) { ok = false; }
+            if (ok) { char dg[20]; hc.hash_c(dg); r = "hash=" + hex(dg, 20) + " pos=" + std::to_string(hc.m_position); }
+            else r = "hash=ERR:internal pos=" + std::to_string(hc.m_position);
+          }
+          node.set_chunk(nullptr);
+        }
       } else if (k == "R") {
         try {
           if (c.loader) c.dl.close(0); else c.fl->close();
